@@ -19,7 +19,7 @@ From SV Require Import Base.Ops Base.Arr Base.Sums Model.Vec3 Model.Exchange Mod
   Spec.ExchangeSpec Proofs.ExchangeL0 Proofs.ExchangeRefine Proofs.SceneRefine Proofs.HistProofs
   Proofs.ReceiverProofs Proofs.PairLists Proofs.Reciprocity Proofs.ReciprocityModel.
 
-(** the all-indices diffuse hypothesis of [mono_reciprocal] / [C09_model] only admits
+(** the all-indices diffuse hypothesis of [mono_reciprocal] / [C09_model] only allows
     reflectance 0: read the table one row beyond its end *)
 Lemma diffuse_everywhere_forces_zero {T} {O : Ops T} (sc : @scene T) (b : nat) (rho : nat -> T) :
   (forall w a d, beta sc w a d b = rho w) -> forall w, rho w = 0%T.
